@@ -595,9 +595,6 @@ pub mod fastq {
             assert forall|k: int| 0 <= k <= w.len() && (forall|j: int| 0 <= j < k ==> w[j] != 10u8) && (k < w.len() ==> w[k] == 10u8)
                 implies nl(w, 0) == k by { lemma_nl_is(w, 0, k); }
         }
-//@closure 0 params="pos: usize" ret="(r: usize)"
-            requires search_start + pos + 1 <= usize::MAX
-            ensures r == search_start + pos + 1
 //@end
 
     // ---- ghost views of the reader -------------------------------------------------------------
@@ -1343,8 +1340,6 @@ trait RecordD {
                 && rec.rwf() && final(self).rem() == old(self).rem().drop_first()),
             [C20|fastq.RecordSetIter.next.none_is_sticky] old(self).rem().len() == 0 ==> r is None && final(self).rem().len() == 0,
             [C06,C20|fastq.RecordSetIter.next.frame] final(self).iwf() && final(self).buffer == old(self).buffer,
-//@closure 0 params="p: &'a BufferPosition" ret="(q: RefRecord<'a>)"
-            ensures q.buffer == self.buffer && q.buf_pos == p
 //@end
 }
 
@@ -1509,6 +1504,8 @@ trait RecordD {
             }
 //@at depth=1 kw=rset nth=1 expect="rset\.\w+\.clear\(\);"
         proof { broadcast use axiom_ref_items_slice; reveal(ps_valid); reveal(ps_lifted); }
+//@at tail expect="(return )?Some\(Ok\("
+        proof { assert(rset.buffer@ =~= self.b()); }
 //@end
 
 //@fn fastq::Reader::read_record_set ret=r tags=C04,C09
